@@ -16,14 +16,58 @@ def so_path(variant="plain"):
     return _paths[variant]
 
 
-def make_engine(kind, variant="plain"):
-    """A new engine object, exactly as engine_collection.<kind>_engine() builds it, on a fresh build."""
-    from strengths.librdengine import LibRDEngine
-    lib = ctypes.CDLL(so_path(variant))
-    e = LibRDEngine(lib, option=kind, description="description",
-                    requires_molecules=(kind != "euler"))
+class _CtypesShim:
+    """Stands in for the `ctypes` module inside strengths.engine_collection while one of its factories runs: whatever
+    library file the factory asks for, it gets the fresh build of the working tree's engine sources."""
+
+    def __init__(self, lib):
+        self._lib = lib
+        self.calls = 0
+
+    def CDLL(self, *a, **k):
+        self.calls += 1
+        return self._lib
+
+    def __getattr__(self, name):
+        return getattr(ctypes, name)
+
+
+def _via_factory(kind, lib):
+    """The library's own factory engine_collection.<kind>_engine(), with the native library redirected to `lib`.
+    Returns None when the factory cannot be used that way (no packaged library file to name, another loading scheme):
+    the caller then builds the object itself."""
+    try:
+        from strengths import engine_collection as ec
+        fac = getattr(ec, kind + "_engine")
+        if not hasattr(ec, "ctypes"):
+            return None
+        shim = _CtypesShim(lib)
+        real = ec.ctypes
+        ec.ctypes = shim
+        try:
+            e = fac()
+        finally:
+            ec.ctypes = real
+        if shim.calls < 1 or not hasattr(e, "setup"):
+            return None
+        return e
+    except Exception:
+        return None
+
+
+def _new_engine(kind, lib):
+    e = _via_factory(kind, lib)
+    if e is None:
+        from strengths.librdengine import LibRDEngine
+        e = LibRDEngine(lib, option=kind, description="description",
+                        requires_molecules=(kind != "euler"))
     e.verif_lib = lib          # our own handle on the native library (no reliance on private attribute names)
     return e
+
+
+def make_engine(kind, variant="plain"):
+    """A new engine object as engine_collection.<kind>_engine() builds it, on a fresh build of the working tree."""
+    return _new_engine(kind, ctypes.CDLL(so_path(variant)))
 
 
 class Probe:
@@ -41,11 +85,7 @@ class Probe:
         L.engineexport_get_progress.restype = ctypes.c_double
 
     def engine(self, kind):
-        from strengths.librdengine import LibRDEngine
-        e = LibRDEngine(self.lib, option=kind, description="description",
-                        requires_molecules=(kind != "euler"))
-        e.verif_lib = self.lib
-        return e
+        return _new_engine(kind, self.lib)
 
     def clear(self):
         self.lib.verif_clear()
